@@ -565,15 +565,19 @@ func (fr *frame) applyContract(fc *FuncContract, display string, names []string,
 		c.assumed["call to "+display+" havocs all known heaps"] = true
 	}
 	c.expandMapKeys(w)
-	for k := range w.keys {
-		keys = append(keys, k)
-	}
-	sort.Strings(keys)
 	// modifies objects, evaluated in the pre-state
 	var mods []modItem
 	for _, m := range fc.Modifies {
 		mods = append(mods, env.modItems(m)...)
 	}
+	for _, m := range mods {
+		// what the contract says may change is written, whatever the body scan found
+		w.keys[m.sortKey] = true
+	}
+	for k := range w.keys {
+		keys = append(keys, k)
+	}
+	sort.Strings(keys)
 	preAlloc := st.alloc
 	if w.allocs || w.all || len(keys) > 0 {
 		na := c.declConst("alloc_call", "Int")
